@@ -4,6 +4,10 @@ set -e
 cd "$(dirname "$0")"
 export CARGO_NET_OFFLINE=true
 python3 tools/extract.py >/dev/null
-(cd lean && lake build BumpVerif bvdrv)
-(cd harness && cp -n /repo/Cargo.lock . 2>/dev/null || true; cargo build --offline && cargo build --offline --release)
+# models, drivers, and every property / obligation module (so that the first quick check is warm)
+PROPS=$(cd lean && ls BumpVerif/Props/*.lean | sed 's#/#.#g; s#\.lean$##')
+(cd lean && lake build BumpVerif bvdrv bvdrv_vec bvdrv_str bvdrv_box $PROPS)
+for h in harness harness_vec harness_str harness_box; do
+  (cd $h && cp -n /repo/Cargo.lock . 2>/dev/null || true; cargo build --offline && cargo build --offline --release)
+done
 echo setup-ok
